@@ -287,7 +287,7 @@ def c17_tape(check, pid, tier, seed):
 
 # ------------------------------------------------------------------------------------------- Miri-scheduled scenarios
 
-MIRI_CLASS = {"C02": "c02", "C03": "c03", "C08": "c08", "C09": "c09"}
+MIRI_CLASS = {"C02": "c02", "C03": "c03", "C04": "c04", "C08": "c08", "C09": "c09"}
 
 def _miri_cmd(check, cls, seed, lo, hi, mseed, rate):
     env = dict(os.environ)
@@ -304,7 +304,10 @@ def miri_attribute(pid_of_class, stderr):
     destroy = ("deallocation" in text) or ("drop_slow" in text) or ("drop_in_place" in text)
     unwrap = ("try_unwrap" in text) or ("into_inner" in text) or ("unwrap_or_clone" in text)
     props = set()
-    if "Data race" in text:
+    counting = ("strong_count" in text) or ("Arc::<" in text and "::count" in text) or ("::count" in text)
+    if "Data race" in text and counting and not destroy:
+        props |= {"C04"}
+    elif "Data race" in text:
         if unwrap:
             props |= {"C09", "C03"}
         elif destroy:
